@@ -1,486 +1,15 @@
 // White-box executor for property C11, injected into package executors with
-// `go test -overlay` (never written under /repo).  It forces schedules on a
-// PeriodicalExecutor / BulkExecutor / ChunkExecutor: client goroutines start
-// Add/Flush/Wait calls one at a time, every Execute callback parks on a gate until
-// the controller releases it, ticks come from a fake ticker, time from the virtual
-// clock overlay of core/timex.  After every controller action the controller waits
-// for quiescence (every goroutine of the package blocked) and records what is
-// observable.  It only executes; generation and checking are done elsewhere.
+// `go test -overlay` (never written under /repo).  The controller (forced schedules on
+// several Bulk / Chunk / Periodical executors at once) lives in verif_c11_ctl.go, which is
+// added to the package the same way; this file is the test entry point.
 package executors
 
 import (
-	"bufio"
-	"encoding/json"
 	"os"
-	"runtime"
-	"sort"
-	"strings"
-	"sync"
-	"sync/atomic"
 	"testing"
-	"time"
 
 	"github.com/zeromicro/go-zero/core/logx"
-	"github.com/zeromicro/go-zero/core/timex"
 )
-
-type vCase struct {
-	ID       int     `json:"id"`
-	Kind     string  `json:"kind"` // bulk | chunk | periodical
-	Maxw     int     `json:"maxw"`
-	Interval int64   `json:"interval"`
-	Bad      []int64 `json:"bad"`
-	Nclients int     `json:"nclients"`
-	Gateq    bool    `json:"gateq"` // park the flusher at shallQuit until "qgo"
-	Gates    bool    `json:"gates"` // park the quitting flusher inside ticker.Stop() until "sgo"
-	Ops      [][]any `json:"ops"`
-}
-
-type vObs struct {
-	Idle     []bool    `json:"idle"`
-	Parked   [][]int64 `json:"parked"`
-	Cont     []int64   `json:"cont"`
-	Inflight int       `json:"inflight"`
-	Guarded  bool      `json:"guarded"`
-	Cmd      bool      `json:"cmd"`
-	Tick     bool      `json:"tick"`
-	Benter   bool      `json:"benter"`
-	Bexit    bool      `json:"bexit"`
-	Qpark    bool      `json:"qpark"`
-	Spark    bool      `json:"spark"`
-}
-
-type vStep struct {
-	Act []any `json:"act"`
-	Obs vObs  `json:"obs"`
-}
-
-type vOut struct {
-	ID    int     `json:"id"`
-	Steps []vStep `json:"steps"`
-	Err   string  `json:"err,omitempty"`
-}
-
-type vGate struct {
-	batch []int64
-	ch    chan struct{}
-}
-
-type vTicker struct {
-	c       chan time.Time
-	stopped atomic.Bool
-	run     *vRun
-}
-
-func (t *vTicker) Chan() <-chan time.Time { return t.c }
-
-// Stop is a schedule point: with gates on, the quitting flusher parks here (the ticker
-// still counts as live) until the controller's "sgo".
-func (t *vTicker) Stop() {
-	if r := t.run; r != nil && r.gateStop.Load() {
-		g := make(chan struct{})
-		r.mu.Lock()
-		r.sgates = append(r.sgates, g)
-		r.mu.Unlock()
-		<-g
-	}
-	t.stopped.Store(true)
-}
-
-type vTask struct {
-	id int64
-	w  int
-}
-
-// container used for the bare PeriodicalExecutor: tasks with weights, flush at maxw
-type vContainer struct {
-	tasks []any
-	size  int
-	maxw  int
-	exec  func([]any)
-}
-
-func (c *vContainer) AddTask(task any) bool {
-	t := task.(vTask)
-	c.tasks = append(c.tasks, t.id)
-	c.size += t.w
-	return c.size >= c.maxw
-}
-func (c *vContainer) Execute(tasks any) { c.exec(tasks.([]any)) }
-func (c *vContainer) RemoveAll() any {
-	t := c.tasks
-	c.tasks = nil
-	c.size = 0
-	return t
-}
-
-type vClient struct {
-	cmds chan func()
-	idle atomic.Bool
-}
-
-func verifClient(c *vClient) {
-	for f := range c.cmds {
-		f()
-		c.idle.Store(true)
-	}
-}
-
-func vStacks() []string {
-	buf := make([]byte, 1<<16)
-	for {
-		n := runtime.Stack(buf, true)
-		if n < len(buf) {
-			buf = buf[:n]
-			break
-		}
-		buf = make([]byte, 2*len(buf))
-	}
-	return strings.Split(strings.TrimSpace(string(buf)), "\n\n")
-}
-
-func vBlocked(stack string) bool {
-	head := stack
-	if nl := strings.IndexByte(stack, '\n'); nl >= 0 {
-		head = stack[:nl]
-	}
-	for _, s := range []string{"[chan send", "[chan receive", "[select", "[sync.Cond.Wait",
-		"[semacquire", "[sync.WaitGroup.Wait", "[sync.Mutex.Lock", "[sync.RWMutex"} {
-		if strings.Contains(head, s) {
-			return true
-		}
-	}
-	return false
-}
-
-func vRelevant(stack string) bool {
-	return strings.Contains(stack, "executors.(*PeriodicalExecutor)") ||
-		strings.Contains(stack, "executors.verifClient")
-}
-
-// vQuiesce waits until every goroutine of the executor and every client is blocked
-// (two consecutive censuses).  benter: the flusher is blocked in enterExecution for a
-// batch it received from the commander channel.
-func vQuiesce() (ok bool, benter bool, bexit bool) {
-	deadline := time.Now().Add(5 * time.Second)
-	stable := 0
-	for spin := 0; ; spin++ {
-		busy := false
-		benter, bexit = false, false
-		for _, g := range vStacks() {
-			if !vRelevant(g) {
-				continue
-			}
-			if !vBlocked(g) {
-				busy = true
-				break
-			}
-			if strings.Contains(g, "backgroundFlush.func1") && strings.Contains(g, ").enterExecution") &&
-				!strings.Contains(g, "(*PeriodicalExecutor).Flush") {
-				benter = true
-			}
-			if strings.Contains(g, "backgroundFlush.func1") && strings.Contains(g, ").enterExecution") &&
-				strings.Contains(g, "(*PeriodicalExecutor).Flush") {
-				bexit = true
-			}
-		}
-		if !busy {
-			stable++
-			if stable >= 2 {
-				return true, benter, bexit
-			}
-		} else {
-			stable = 0
-		}
-		if time.Now().After(deadline) {
-			return false, benter, bexit
-		}
-		if spin < 50 {
-			runtime.Gosched()
-		} else {
-			time.Sleep(20 * time.Microsecond)
-		}
-	}
-}
-
-type vRun struct {
-	c        vCase
-	pe       *PeriodicalExecutor
-	add      func(id int64, w int)
-	tasks    func() []any
-	mu       sync.Mutex
-	parked   []*vGate
-	ticker   *vTicker
-	qgate    chan struct{}
-	sgates   []chan struct{}
-	gateStop atomic.Bool
-	clients  []*vClient
-	bad      map[int64]bool
-}
-
-func (r *vRun) callback(tasks []any) {
-	ids := make([]int64, len(tasks))
-	for i, t := range tasks {
-		ids[i] = t.(int64)
-	}
-	g := &vGate{batch: ids, ch: make(chan struct{})}
-	r.mu.Lock()
-	r.parked = append(r.parked, g)
-	r.mu.Unlock()
-	<-g.ch
-	for _, id := range ids {
-		if r.bad[id] {
-			panic("verif: bad task")
-		}
-	}
-}
-
-func vMin(b []int64) int64 {
-	m := b[0]
-	for _, x := range b {
-		if x < m {
-			m = x
-		}
-	}
-	return m
-}
-
-func (r *vRun) sortedParked() []*vGate {
-	r.mu.Lock()
-	ps := append([]*vGate(nil), r.parked...)
-	r.mu.Unlock()
-	sort.Slice(ps, func(i, j int) bool { return vMin(ps[i].batch) < vMin(ps[j].batch) })
-	return ps
-}
-
-func (r *vRun) release(g *vGate) {
-	r.mu.Lock()
-	for i, p := range r.parked {
-		if p == g {
-			r.parked = append(r.parked[:i:i], r.parked[i+1:]...)
-			break
-		}
-	}
-	r.mu.Unlock()
-	close(g.ch)
-}
-
-func (r *vRun) observe(benter, bexit bool) vObs {
-	o := vObs{Benter: benter, Bexit: bexit, Parked: [][]int64{}, Cont: []int64{}}
-	for _, c := range r.clients {
-		o.Idle = append(o.Idle, c.idle.Load())
-	}
-	for _, g := range r.sortedParked() {
-		o.Parked = append(o.Parked, g.batch)
-	}
-	r.pe.lock.Lock()
-	for _, t := range r.tasks() {
-		o.Cont = append(o.Cont, t.(int64))
-	}
-	o.Guarded = r.pe.guarded
-	r.pe.lock.Unlock()
-	o.Inflight = int(atomic.LoadInt32(&r.pe.inflight))
-	o.Cmd = len(r.pe.commander) > 0
-	r.mu.Lock()
-	if r.ticker != nil && !r.ticker.stopped.Load() {
-		o.Tick = len(r.ticker.c) > 0
-	}
-	o.Qpark = r.qgate != nil
-	o.Spark = len(r.sgates) > 0
-	r.mu.Unlock()
-	return o
-}
-
-func vNum(v any) int64 { return int64(v.(float64)) }
-
-func vRunCase(c vCase) (out vOut) {
-	out.ID = c.ID
-	r := &vRun{c: c, bad: map[int64]bool{}}
-	for _, b := range c.Bad {
-		r.bad[b] = true
-	}
-	iv := time.Duration(c.Interval)
-	switch c.Kind {
-	case "bulk":
-		be := NewBulkExecutor(r.callback, WithBulkTasks(c.Maxw), WithBulkInterval(iv))
-		r.pe = be.executor
-		r.add = func(id int64, w int) { be.Add(id) }
-		r.tasks = func() []any { return be.container.tasks }
-	case "chunk":
-		ce := NewChunkExecutor(r.callback, WithChunkBytes(c.Maxw), WithFlushInterval(iv))
-		r.pe = ce.executor
-		r.add = func(id int64, w int) { ce.Add(id, w) }
-		r.tasks = func() []any { return ce.container.tasks }
-	default:
-		vc := &vContainer{maxw: c.Maxw, exec: r.callback}
-		r.pe = NewPeriodicalExecutor(iv, vc)
-		r.add = func(id int64, w int) { r.pe.Add(vTask{id: id, w: w}) }
-		r.tasks = func() []any { return vc.tasks }
-	}
-	r.pe.newTicker = func(time.Duration) timex.Ticker {
-		t := &vTicker{c: make(chan time.Time, 1), run: r}
-		r.mu.Lock()
-		r.ticker = t
-		r.mu.Unlock()
-		return t
-	}
-	timex.SetFakeNow(1000000)
-	if c.Gateq {
-		hook := func() {
-			g := make(chan struct{})
-			r.mu.Lock()
-			r.qgate = g
-			r.mu.Unlock()
-			<-g
-		}
-		timex.SinceHook.Store(&hook)
-	}
-	r.gateStop.Store(c.Gates)
-	sgo := func() bool {
-		r.mu.Lock()
-		var g chan struct{}
-		if len(r.sgates) > 0 {
-			g = r.sgates[0]
-			r.sgates = r.sgates[1:]
-		}
-		r.mu.Unlock()
-		if g != nil {
-			close(g)
-		}
-		return g != nil
-	}
-	qgo := func() bool {
-		r.mu.Lock()
-		g := r.qgate
-		r.qgate = nil
-		r.mu.Unlock()
-		if g != nil {
-			close(g)
-		}
-		return g != nil
-	}
-	for i := 0; i < c.Nclients; i++ {
-		cl := &vClient{cmds: make(chan func())}
-		cl.idle.Store(true)
-		r.clients = append(r.clients, cl)
-		go verifClient(cl)
-	}
-	settle := func(act []any) bool {
-		ok, benter, bexit := vQuiesce()
-		if !ok {
-			out.Err = "no quiescence after " + toJSON(act)
-			return false
-		}
-		out.Steps = append(out.Steps, vStep{Act: act, Obs: r.observe(benter, bexit)})
-		return true
-	}
-	start := func(ci int, f func()) bool {
-		if ci < 0 || ci >= len(r.clients) || !r.clients[ci].idle.Load() {
-			return false
-		}
-		r.clients[ci].idle.Store(false)
-		r.clients[ci].cmds <- f
-		return true
-	}
-	tick := func() {
-		r.mu.Lock()
-		t := r.ticker
-		r.mu.Unlock()
-		if t != nil && !t.stopped.Load() {
-			select {
-			case t.c <- time.Now():
-			default:
-			}
-		}
-	}
-	okRun := true
-	for _, op := range c.Ops {
-		if !okRun {
-			break
-		}
-		switch op[0].(string) {
-		case "add":
-			ci, id, w := int(vNum(op[1])), vNum(op[2]), int(vNum(op[3]))
-			start(ci, func() { r.add(id, w) })
-			okRun = settle([]any{"add", ci, id, w})
-		case "flush":
-			ci := int(vNum(op[1]))
-			start(ci, func() { r.pe.Flush() })
-			okRun = settle([]any{"flush", ci})
-		case "wait":
-			ci := int(vNum(op[1]))
-			start(ci, func() { r.pe.Wait() })
-			okRun = settle([]any{"wait", ci})
-		case "rel":
-			ps := r.sortedParked()
-			m := int64(-1)
-			if len(ps) > 0 {
-				g := ps[int(vNum(op[1]))%len(ps)]
-				m = vMin(g.batch)
-				r.release(g)
-			}
-			okRun = settle([]any{"rel", m})
-		case "relall":
-			for _, g := range r.sortedParked() {
-				r.release(g)
-				if okRun = settle([]any{"rel", vMin(g.batch)}); !okRun {
-					break
-				}
-			}
-		case "qgo":
-			if qgo() {
-				okRun = settle([]any{"qgo"})
-			}
-		case "sgo":
-			if sgo() {
-				okRun = settle([]any{"sgo"})
-			}
-		case "tick":
-			tick()
-			okRun = settle([]any{"tick"})
-		case "clock":
-			d := vNum(op[1])
-			timex.AdvanceFake(time.Duration(d))
-			okRun = settle([]any{"clock", d})
-		}
-	}
-	// clean-up (not part of the observed history): let everything finish and make
-	// the flusher quit so that no goroutine of this case survives
-	timex.SinceHook.Store(nil)
-	r.gateStop.Store(false)
-	for i := 0; i < 50; i++ {
-		qgo()
-		for sgo() {
-		}
-		ps := r.sortedParked()
-		for _, g := range ps {
-			r.release(g)
-		}
-		if ok, _, _ := vQuiesce(); !ok {
-			break
-		}
-		r.pe.lock.Lock()
-		guarded := r.pe.guarded
-		r.pe.lock.Unlock()
-		if len(ps) == 0 && !guarded && len(r.sortedParked()) == 0 {
-			break
-		}
-		timex.AdvanceFake(time.Duration(c.Interval * 100))
-		tick()
-		vQuiesce()
-	}
-	for _, cl := range r.clients {
-		if cl.idle.Load() {
-			close(cl.cmds)
-		}
-	}
-	return out
-}
-
-func toJSON(v any) string {
-	b, _ := json.Marshal(v)
-	return string(b)
-}
 
 func TestVerifC11(t *testing.T) {
 	in, outp := os.Getenv("VERIF_IN"), os.Getenv("VERIF_OUT")
@@ -488,25 +17,7 @@ func TestVerifC11(t *testing.T) {
 		t.Skip("VERIF_IN/VERIF_OUT not set")
 	}
 	logx.Disable()
-	data, err := os.ReadFile(in)
-	if err != nil {
+	if err := VerifRunFile(in, outp, nil); err != nil {
 		t.Fatal(err)
 	}
-	var cases []vCase
-	if err := json.Unmarshal(data, &cases); err != nil {
-		t.Fatal(err)
-	}
-	f, err := os.Create(outp)
-	if err != nil {
-		t.Fatal(err)
-	}
-	w := bufio.NewWriterSize(f, 1<<20)
-	for _, c := range cases {
-		o := vRunCase(c)
-		b, _ := json.Marshal(o)
-		w.Write(b)
-		w.WriteByte('\n')
-	}
-	w.Flush()
-	f.Close()
 }
